@@ -11,6 +11,7 @@ import (
 	"google.golang.org/grpc/credentials/insecure"
 	"io"
 	"net"
+	"sync"
 	"sync/atomic"
 	"time"
 )
@@ -49,6 +50,7 @@ type Shared struct {
 	state        atomic.Uint32
 	restartCount int
 	restartTimer atomic.Pointer[time.Timer]
+	openLock     sync.Mutex // 串行化解析器中的建连
 }
 
 // GetResourceController 获取资源控制器
@@ -106,6 +108,13 @@ func (s *Shared) Share() error {
 		pa := id.GetPhysicalAddress()
 		process, exist := s.streams.Load(pa)
 		if exist {
+			return process.(sharedStream)
+		}
+
+		// 同一时刻仅允许一个解析者建立连接，避免并发的首次解析为同一地址打开多条流
+		s.openLock.Lock()
+		defer s.openLock.Unlock()
+		if process, exist = s.streams.Load(pa); exist {
 			return process.(sharedStream)
 		}
 
@@ -173,6 +182,7 @@ func (s *Shared) open(address PhysicalAddress) (sharedStream, error) {
 	}
 
 	stream := newServerStream(address, s, server, cc)
+	s.attachStream(address, stream) // 在返回前挂载，后续解析者将复用该流而非再次建连
 	go func() {
 		if err = s.streaming(address, stream); err != nil {
 			// 连接断开，无需重连？下次使用会重新建连
